@@ -249,16 +249,16 @@ package argmapper
 //@   ensures result == ite(v.Name != "", 1, 2)
 
 // vpos: ghost position of struct field i in the values list
-//@ ghostvar vpos fmap[int,int]
+//@ ghostfield ValueSet.vpos fmap[int,int]
 // vsOK: a value set mirrors struct type T (pointer-stripped) exactly
 //@ ghost vsP0(vs *ValueSet, T reflect.Type, n int) bool = vs != nil && vs.structType == T && kindof(T) == 25 && vs.namedValues != nil && vs.typedValues != nil && soff(vs.values) == 0
-//@ ghost vsP1(vs *ValueSet, T reflect.Type, n int) bool = forall(j, int, imp(0 <= j && j < len(vs.values), vs.values[j] != nil && eligible(T, vs.values[j].index) && vs.values[j].index < n && vs.values[j].Type == fieldType(T, vs.values[j].index) && vs.values[j].Name == specName(T, vs.values[j].index) && vs.values[j].Subtype == specSub(T, vs.values[j].index) && !valid(vs.values[j].Value) && vpos[vs.values[j].index] == j))
+//@ ghost vsP1(vs *ValueSet, T reflect.Type, n int) bool = forall(j, int, imp(0 <= j && j < len(vs.values), vs.values[j] != nil && eligible(T, vs.values[j].index) && vs.values[j].index < n && vs.values[j].Type == fieldType(T, vs.values[j].index) && vs.values[j].Name == specName(T, vs.values[j].index) && vs.values[j].Subtype == specSub(T, vs.values[j].index) && !valid(vs.values[j].Value) && vs.vpos[vs.values[j].index] == j))
 //@ ghost vsP2(vs *ValueSet, T reflect.Type, n int) bool = forall(j, int, k, int, imp(0 <= j && j < k && k < len(vs.values), vs.values[j].index < vs.values[k].index && vs.values[j] != vs.values[k]))
-//@ ghost vsP3(vs *ValueSet, T reflect.Type, n int) bool = forall(i, int, imp(eligible(T, i) && i < n, 0 <= vpos[i] && vpos[i] < len(vs.values) && vs.values[vpos[i]].index == i))
+//@ ghost vsP3(vs *ValueSet, T reflect.Type, n int) bool = forall(i, int, imp(eligible(T, i) && i < n, 0 <= vs.vpos[i] && vs.vpos[i] < len(vs.values) && vs.values[vs.vpos[i]].index == i))
 //@ ghost vsP4(vs *ValueSet, T reflect.Type, n int) bool = forall(j, int, imp(0 <= j && j < len(vs.values) && vs.values[j].Name != "", has(vs.namedValues, vs.values[j].Name)))
 //@ ghost vsP5(vs *ValueSet, T reflect.Type, n int) bool = forall(j, int, imp(0 <= j && j < len(vs.values) && vs.values[j].Name == "", has(vs.typedValues, vs.values[j].Type)))
-//@ ghost vsP6(vs *ValueSet, T reflect.Type, n int) bool = forall(m, string, imp(has(vs.namedValues, m), vs.namedValues[m] != nil && vs.namedValues[m].Name == m && m != "" && 0 <= vpos[vs.namedValues[m].index] && vpos[vs.namedValues[m].index] < len(vs.values) && vs.values[vpos[vs.namedValues[m].index]] == vs.namedValues[m]))
-//@ ghost vsP7(vs *ValueSet, T reflect.Type, n int) bool = forall(t, reflect.Type, imp(has(vs.typedValues, t), vs.typedValues[t] != nil && vs.typedValues[t].Type == t && vs.typedValues[t].Name == "" && 0 <= vpos[vs.typedValues[t].index] && vpos[vs.typedValues[t].index] < len(vs.values) && vs.values[vpos[vs.typedValues[t].index]] == vs.typedValues[t]))
+//@ ghost vsP6(vs *ValueSet, T reflect.Type, n int) bool = forall(m, string, imp(has(vs.namedValues, m), vs.namedValues[m] != nil && vs.namedValues[m].Name == m && m != "" && 0 <= vs.vpos[vs.namedValues[m].index] && vs.vpos[vs.namedValues[m].index] < len(vs.values) && vs.values[vs.vpos[vs.namedValues[m].index]] == vs.namedValues[m]))
+//@ ghost vsP7(vs *ValueSet, T reflect.Type, n int) bool = forall(t, reflect.Type, imp(has(vs.typedValues, t), vs.typedValues[t] != nil && vs.typedValues[t].Type == t && vs.typedValues[t].Name == "" && 0 <= vs.vpos[vs.typedValues[t].index] && vs.vpos[vs.typedValues[t].index] < len(vs.values) && vs.values[vs.vpos[vs.typedValues[t].index]] == vs.typedValues[t]))
 //@ ghost vsP8(vs *ValueSet, T reflect.Type, n int) bool = imp(forall(k, int, imp(0 <= k && k < n, eligible(T, k))), len(vs.values) == n && forall(j, int, imp(0 <= j && j < n, vs.values[j].index == j)))
 //@ ghost vsPart(vs *ValueSet, T reflect.Type, n int) bool = vsP8(vs, T, n) && vsP0(vs, T, n) && vsP1(vs, T, n) && vsP2(vs, T, n) && vsP3(vs, T, n) && vsP4(vs, T, n) && vsP5(vs, T, n) && vsP6(vs, T, n) && vsP7(vs, T, n)
 //@ ghost vsOK(vs *ValueSet, T reflect.Type) bool = vsPart(vs, T, numField(T))
@@ -280,7 +280,7 @@ package argmapper
 //@   ensures  [mirrors-struct-7] imp(result1 == nil, vsP7(result0, baseType(old(typ)), numField(baseType(old(typ)))))
 //@   ensures  [mirrors-struct-8] imp(result1 == nil, vsP8(result0, baseType(old(typ)), numField(baseType(old(typ)))))
 //@   ensures  [error-means-nil] imp(result1 != nil, result0 == nil)
-//@   assigns  ValueSet, Value, valueInternal, []*Value, map[string]*Value, map[reflect.Type]*Value, map[string]string, []string, []interface{}, reflect.StructField, vpos
+//@   assigns  ValueSet, Value, valueInternal, []*Value, map[string]*Value, map[reflect.Type]*Value, map[string]string, []string, []interface{}, reflect.StructField
 //@   modifies nothing
 //@   after "name = strings.ToLower(name)" assert [tag-A] imp(ftag(typ, i) == "", !has(options, "typeOnly") && options["subtype"] == "")
 //@   after "name = strings.ToLower(name)" assert [tag-B] imp(ftag(typ, i) != "" && lastOpt(ftag(typ, i), "typeOnly") >= 1, has(options, "typeOnly"))
@@ -289,7 +289,7 @@ package argmapper
 //@   after "name = strings.ToLower(name)" assert [tag-E] imp(ftag(typ, i) != "" && lastOpt(ftag(typ, i), "subtype") < 1, options["subtype"] == "")
 //@   after "name = strings.ToLower(name)" assert [tag-options] has(options, "typeOnly") == specTypeOnly(typ, i) && options["subtype"] == specSub(typ, i)
 //@   after "name = strings.ToLower(name)" assert [tag-name] name == lower(ite(ftag(typ, i) != "" && splitAt(ftag(typ, i), ",", 0) != "", splitAt(ftag(typ, i), ",", 0), fieldName(typ, i)))
-//@   after "result.values = append(result.values, &value)" set vpos = update(vpos, i, len(result.values)-1)
+//@   after "result.values = append(result.values, &value)" set result.vpos = update(result.vpos, i, len(result.values)-1)
 //@   loop 1 invariant typ != nil && baseType(typ) == baseType(old(typ)) && 0 <= ptrCount && ptrDepth(old(typ)) == ptrDepth(typ) + ptrCount
 //@   loop 1 decreases ptrDepth(typ)
 //@   loop 2 invariant typ == baseType(old(typ)) && kindof(typ) == 25 && 0 <= i && i <= numField(typ) && ptrCount == ptrDepth(old(typ)) && ptrCount <= 1
@@ -346,7 +346,7 @@ package argmapper
 //@   ensures  [mixed-marker-rejected] imp(count > 1 && exists(i, int, 0 <= i && i < count && isMarkerStruct(getT(get, i))), result1 != nil)
 //@   ensures  [lifted] imp(count >= 1 && forall(i, int, imp(0 <= i && i < count, !isMarkerStruct(getT(get, i)))), result1 == nil && liftedVS(result0, get, count) && fresh(result0))
 //@   ensures  [error-means-nil] imp(result1 != nil, result0 == nil)
-//@   assigns  ValueSet, Value, valueInternal, []*Value, map[string]*Value, map[reflect.Type]*Value, map[string]string, []string, []interface{}, reflect.StructField, []reflect.StructField, vpos
+//@   assigns  ValueSet, Value, valueInternal, []*Value, map[string]*Value, map[reflect.Type]*Value, map[string]string, []string, []interface{}, reflect.StructField, []reflect.StructField
 //@   modifies nothing
 //@   loop 1 invariant 0 <= i && i <= count && len(sf) == i && soff(sf) == 0 && (fresh(sf) || sf == nil)
 //@   loop 1 invariant forall(j, int, imp(0 <= j && j < i, allocated(sf[j]) && sf[j] != nil && sf[j].Type == getT(get, j) && sf[j].Tag == "argmapper:\",typeOnly\"" && sf[j].PkgPath == "" && !sf[j].Anonymous && !isMarkerStruct(getT(get, j))))
@@ -368,7 +368,7 @@ package argmapper
 //@   ensures  [double-pointer-rejected] imp(f != nil && kindof(dyntype(f)) == 19 && numIn(dyntype(f)) == 1 && isMarkerStruct(inType(dyntype(f), 0)) && ptrDepth(inType(dyntype(f), 0)) > 1, result1 != nil)
 //@   ensures  [outputs-exclude-final-error] imp(result1 == nil && nOutVals(dyntype(f)) == 0, emptyVS(result0.output))
 //@   ensures  [outputs-lifted] imp(result1 == nil && nOutVals(dyntype(f)) >= 1 && forall(i, int, imp(0 <= i && i < nOutVals(dyntype(f)), !isMarkerStruct(outType(dyntype(f), i)))), liftedVS(result0.output, methodval("reflect.(Type).Out", dyntype(f)), nOutVals(dyntype(f))))
-//@   assigns  Func, argBuilder, NamedM, NamedSubM, TypedM, TypedSubM, []*Func, []ConverterGenFunc, ValueSet, Value, valueInternal, []*Value, map[string]*Value, map[reflect.Type]*Value, map[string]string, []string, []interface{}, reflect.StructField, []reflect.StructField, vpos, rvstore, rvfresh
+//@   assigns  Func, argBuilder, NamedM, NamedSubM, TypedM, TypedSubM, []*Func, []ConverterGenFunc, ValueSet, Value, valueInternal, []*Value, map[string]*Value, map[reflect.Type]*Value, map[string]string, []string, []interface{}, reflect.StructField, []reflect.StructField, rvstore, rvfresh
 //@   modifies nothing
 
 //@ ghost builderRest(a *argBuilder) bool = a.logger == old(a.logger) && a.named == old(a.named) && a.namedSub == old(a.namedSub) && a.typed == old(a.typed) && a.typedSub == old(a.typedSub) && a.redefining == old(a.redefining) && a.filterInput == old(a.filterInput) && a.filterOutput == old(a.filterOutput) && a.funcName == old(a.funcName) && a.funcOnce == old(a.funcOnce)
@@ -377,7 +377,7 @@ package argmapper
 //@   requires a != nil
 //@   ensures  [non-function-is-an-error] imp(exists(j, int, 0 <= j && j < len(fs) && (fs[j] == nil || kindof(dyntype(fs[j])) != 19)), result != nil)
 //@   ensures  [only-converters-change] builderRest(a) && a.convGens == old(a.convGens) && (sref(a.convs) == sref(old(a.convs)) || fresh(a.convs))
-//@   assigns  Func, argBuilder, NamedM, NamedSubM, TypedM, TypedSubM, []*Func, []ConverterGenFunc, ValueSet, Value, valueInternal, []*Value, map[string]*Value, map[reflect.Type]*Value, map[string]string, []string, []interface{}, reflect.StructField, []reflect.StructField, vpos, rvstore, rvfresh
+//@   assigns  Func, argBuilder, NamedM, NamedSubM, TypedM, TypedSubM, []*Func, []ConverterGenFunc, ValueSet, Value, valueInternal, []*Value, map[string]*Value, map[reflect.Type]*Value, map[string]string, []string, []interface{}, reflect.StructField, []reflect.StructField, rvstore, rvfresh
 //@   modifies a, a.convs
 //@   loop 1 invariant a != nil && builderRest(a) && a.convGens == old(a.convGens) && (sref(a.convs) == sref(old(a.convs)) || fresh(a.convs))
 //@   loop 1 invariant forall(j, int, imp(0 <= j && j < idx1, fs[j] != nil && kindof(dyntype(fs[j])) == 19))
@@ -398,7 +398,7 @@ package argmapper
 //@   ensures  [last-named-subtype-wins] imp(result0 != nil, forall(i, int, k, string, s, string, imp(0 <= i && i < len(opts) && setsNamedSub(opts[i], k, s) && forall(j, int, imp(i < j && j < len(opts), !setsNamedSub(opts[j], k, s))), has(result0.namedSub[k], s) && result0.namedSub[k][s] == namedSubVal(opts[i]))))
 //@   ensures  [only-supplied-subtypes] imp(result0 != nil, forall(k, string, s, string, imp(forall(i, int, imp(0 <= i && i < len(opts), !setsNamedSub(opts[i], k, s))), !has(result0.namedSub[k], s))))
 //@   ensures  [once-flag] imp(result0 != nil, forall(i, int, imp(0 <= i && i < len(opts) && fncode(opts[i]) == litcode("argmapper.FuncOnce$1"), result0.funcOnce)) && imp(forall(i, int, imp(0 <= i && i < len(opts), fncode(opts[i]) != litcode("argmapper.FuncOnce$1"))), !result0.funcOnce))
-//@   assigns  Func, argBuilder, NamedM, NamedSubM, TypedM, TypedSubM, []*Func, []ConverterGenFunc, ValueSet, Value, valueInternal, []*Value, map[string]*Value, map[reflect.Type]*Value, map[string]string, []string, []interface{}, reflect.StructField, []reflect.StructField, vpos, rvstore, rvfresh
+//@   assigns  Func, argBuilder, NamedM, NamedSubM, TypedM, TypedSubM, []*Func, []ConverterGenFunc, ValueSet, Value, valueInternal, []*Value, map[string]*Value, map[reflect.Type]*Value, map[string]string, []string, []interface{}, reflect.StructField, []reflect.StructField, rvstore, rvfresh
 //@   modifies nothing
 //@   loop 1 invariant wfB(builder) && fresh(builder) && fresh(builder.named) && fresh(builder.namedSub) && fresh(builder.typed) && fresh(builder.typedSub) && !builder.redefining
 //@   loop 1 invariant !existed(builder.convs) && !existed(builder.convGens)
